@@ -24,7 +24,7 @@ def cfg_space(tier):
     else:
         vals, L, pats, pers, tols = "{0, 1, 2, 4}", 6, "1..5", "{<<1,1>>, <<1,2>>, <<2,1>>, <<2,2>>, <<3,1>>, <<1,3>>}", "{<<0,1>>, <<1,2>>, <<1,1>>, <<3,1>>, <<1,0>>}"
     base = '''[type |-> "positive", startEp |-> 1, epochs |-> %d, N |-> 1, posB |-> 1, negB |-> 0,
-       data |-> <<1>>, bases |-> <<>>, sched |-> FALSE, entryStop |-> FALSE, perms |-> "id",
+       data |-> <<1>>, bases |-> <<>>, sched |-> FALSE, entryStop |-> FALSE, again |-> "no", perms |-> "id",
        cbs |-> CBS, vals |-> <<0>> \\o v, vars |-> <<0>> \\o VARS]''' % L
     ev_first = '<<[t |-> "rec"], [t |-> "eval", period |-> pp[1], kind |-> KIND], [t |-> "early", period |-> pp[2], patience |-> pa, tolN |-> tl[1], tolD |-> tl[2], crit |-> cr, ev |-> 2], [t |-> "rec"]>>'
     st_first = '<<[t |-> "rec"], [t |-> "early", period |-> pp[2], patience |-> pa, tolN |-> tl[1], tolD |-> tl[2], crit |-> cr, ev |-> 3], [t |-> "eval", period |-> pp[1], kind |-> KIND], [t |-> "rec"]>>'
@@ -136,7 +136,7 @@ def run(tier, seed):
             st["ev"] = 3
             cbs = [{"t": "rec"}, st, ev, {"t": "rec"}]
         cfg = dict(type="positive", startEp=rng.randint(0, 2), epochs=L, N=2, posB=rng.randint(1, 2), negB=0,
-                   data=[1, 2], bases=[], sched=False, entryStop=False, perms="all", cbs=cbs, vals=vals,
+                   data=[1, 2], bases=[], sched=False, entryStop=False, again="no", perms="all", cbs=cbs, vals=vals,
                    vars=[(v * v) % 7 for v in vals])
         with warnings.catch_warnings():
             warnings.simplefilter("ignore")
@@ -155,7 +155,7 @@ def run(tier, seed):
     def self_compare(lines):
         # a run that stopped at the very first evaluation (what patience-1 lookback did)
         cfg = dict(type="positive", startEp=1, epochs=4, N=1, posB=1, negB=0, data=[1], bases=[], sched=False,
-                   entryStop=False, perms="all", vals=[0, 3, 1, 4, 1], vars=[0, 0, 0, 0, 0],
+                   entryStop=False, again="no", perms="all", vals=[0, 3, 1, 4, 1], vars=[0, 0, 0, 0, 0],
                    cbs=[{"t": "rec"}, {"t": "eval", "period": 1, "kind": "metric"},
                         {"t": "early", "period": 1, "patience": 1, "tolN": 1, "tolD": 2, "crit": "absolute", "ev": 2}])
         real = trainrun.real_run(dict(cfg, epochs=1), seed=1, k=0)
